@@ -65,6 +65,16 @@ _octets = st.one_of(
 )
 
 
+# valid UTF-8 text with the code points that text escaping has to get right: C0/C1 controls, DEL,
+# NBSP, combining / zero-width / line-separator characters, BMP and astral characters
+_UTF8_ALPHABET = (
+    [chr(c) for c in (0x00, 0x09, 0x0A, 0x1F, 0x20, 0x22, 0x5C, 0x7E, 0x7F, 0x80, 0x85, 0x9B, 0x9F, 0xA0, 0xE9, 0xFF,
+                      0x0301, 0x200B, 0x2028, 0x6F22, 0xFEFF, 0xFFFD, 0x1F600)]
+    + list("ab;()@$")
+)
+_utf8_text = st.lists(st.sampled_from(_UTF8_ALPHABET), min_size=1, max_size=10).map(lambda l: "".join(l).encode("utf-8"))
+
+
 class B:
     def __init__(self, draw, ctx):
         self.draw = draw
@@ -126,7 +136,7 @@ class B:
         return b
 
     def charstr(self, max_size=255):
-        b = self.draw(st.one_of(_octets, st.binary(min_size=250, max_size=255)))[:max_size]
+        b = self.draw(st.one_of(_octets, _octets, st.binary(min_size=250, max_size=255), _utf8_text))[:max_size]
         if len(b) in (0, 255):
             self.flags.add("boundary")
         self.out.append(len(b))
